@@ -113,3 +113,28 @@ pub fn unit_inc(ui: u8) -> Option<(Unit, i64)> {
         _ => return None,
     })
 }
+
+#[inline(always)]
+pub fn unit_of(u: u8) -> Option<Unit> {
+    Some(match u {
+        0 => Unit::Nanosecond,
+        1 => Unit::Microsecond,
+        2 => Unit::Millisecond,
+        3 => Unit::Second,
+        4 => Unit::Minute,
+        5 => Unit::Hour,
+        6 => Unit::Day,
+        7 => Unit::Week,
+        8 => Unit::Month,
+        9 => Unit::Year,
+        _ => return None,
+    })
+}
+pub type SpanCal = (i16, i32, i32, i32);
+pub type SpanTime = (i32, i64, i64, i64, i64, i64);
+#[inline(always)]
+pub fn span_cal(s: &Span) -> SpanCal { (s.get_years(), s.get_months(), s.get_weeks(), s.get_days()) }
+#[inline(always)]
+pub fn span_time(s: &Span) -> SpanTime {
+    (s.get_hours(), s.get_minutes(), s.get_seconds(), s.get_milliseconds(), s.get_microseconds(), s.get_nanoseconds())
+}
